@@ -7,6 +7,7 @@ mod flock;
 mod image;
 mod iohook;
 mod stress;
+mod locksdemo;
 mod util;
 
 fn arg(args: &[String], name: &str) -> Option<String> {
@@ -33,6 +34,7 @@ fn main() {
         "churn-child" => std::process::exit(crash::churn_child(&args)),
         "flock-child" => std::process::exit(flock::child(&args)),
         "stress-child" => std::process::exit(stress::child(&args)),
+        "locks-nested" => std::process::exit(locksdemo::run(&args)),
         _ => {}
     }
     let mut sink = util::Sink::new();
